@@ -87,8 +87,18 @@ def matchesDirPattern (p : Path) (pat : List Char) : Bool :=
   let dp := dropAnyDepth (rstripSlash pat)
   (dirParts p).any (fun part => glob dp part) || (dp.contains '/' && glob (dp ++ ['/', '*']) (joinPath p))
 
+/-- a leading `**/` means "at any depth", which includes the top level: the pattern without it is tried too -/
+def anyDepthAlt (pat s : List Char) : Bool :=
+  match pat with
+  | '*' :: '*' :: '/' :: r => glob r s
+  | _ => false
+
 /-- `matches_pattern` (the second `fnmatch` on `str(Path(path))` is the same call for normalised paths) -/
 def matchesPattern (p : Path) (pat : List Char) : Bool :=
+  if pat.getLast? == some '/' then matchesDirPattern p pat else (glob pat (joinPath p) || anyDepthAlt pat (joinPath p))
+
+/-- before the repair of F14e: `**/name` never matched a file at the top level -/
+def matchesPatternOld (p : Path) (pat : List Char) : Bool :=
   if pat.getLast? == some '/' then matchesDirPattern p pat else glob pat (joinPath p)
 
 /-- `is_ignored` : path relative to the project root against every repository pattern -/
@@ -162,6 +172,7 @@ inductive Form where
   | exact (p : Path)            -- `a/b.py`
   | globDir (anyDepth : Bool) (g : Name)   -- `*.egg-info/`, `**/*_generated/` : glob on a directory name
   | dirPath (q : Path)          -- `src/generated/` : a directory given by its path from the root (two or more components)
+  | anyFile (n : Name)          -- `**/name.py` : a file of that name at any depth, the top level included
   deriving Repr
 
 def Form.render : Form → List Char
@@ -171,6 +182,7 @@ def Form.render : Form → List Char
   | .exact p => joinPath p
   | .globDir a g => (if a then ['*', '*', '/'] else []) ++ (g ++ ['/'])
   | .dirPath q => joinPath q ++ ['/']
+  | .anyFile n => '*' :: '*' :: '/' :: n
 
 /-- gitignore reading of the documented forms -/
 def Form.specMatch (p : Path) : Form → Bool
@@ -182,6 +194,7 @@ def Form.specMatch (p : Path) : Form → Bool
   | .exact q => p == q
   | .globDir _ g => (dirParts p).any (fun part => glob g part)
   | .dirPath q => q.isPrefixOf (dirParts p)          -- everything below that directory, at any depth
+  | .anyFile n => p.getLast? == some n
 
 /-- well-formed documented pattern: literal name / extension without `/`; a directory path of two or more literal components -/
 def Form.wf : Form → Bool
@@ -191,6 +204,7 @@ def Form.wf : Form → Bool
   | .exact q => literal (joinPath q) && q.all (fun c => !c.contains '/' && !c.isEmpty) && !q.isEmpty
   | .globDir _ g => !g.contains '/' && !g.isEmpty && !g.contains '['
   | .dirPath q => literal (joinPath q) && q.all (fun c => !c.contains '/' && !c.isEmpty) && decide (2 ≤ q.length)
+  | .anyFile n => literal n && !n.contains '/' && !n.isEmpty
 
 /-- excluded by the always-excluded names: inside such a directory (below the target), or a compiled suffix -/
 def specExcluded (p : Path) : Bool :=
